@@ -580,7 +580,7 @@ def candidates(fn, stored_attrs=frozenset()) -> List[Cand]:
                     firsts = [b[0] for b in leaves if b]
                     if len(firsts) == len(leaves) and len({ast.dump(x) for x in firsts}) == 1 and not isinstance(firsts[0], EXIT) and all(len(b) > 1 for b in leaves) \
                             and all(pure(t) for t in _tests(st)) and not (stmt_names([firsts[0]]) & {x.id for t in _tests(st) for x in ast.walk(t) if isinstance(x, ast.Name)} and _stores(firsts[0])):
-                        def f(stmts=stmts, i=i, leaves=leaves):
+                        def f(stmts=stmts, i=i, leaves=leaves, st=st):
                             h = leaves[0][0]
                             for b in leaves:
                                 del b[0]
@@ -588,7 +588,7 @@ def candidates(fn, stored_attrs=frozenset()) -> List[Cand]:
                         out.append(("hoist", f))
                     live = [b for b in leaves if not exits(b)]
                     if len(live) >= 2 and all(b for b in live) and len({ast.dump(b[-1]) for b in live}) == 1 and all(len(b) > 1 for b in live):
-                        def f(stmts=stmts, i=i, live=live):
+                        def f(stmts=stmts, i=i, live=live, st=st):
                             t = live[0][-1]
                             for b in live:
                                 del b[-1]
@@ -604,7 +604,7 @@ def candidates(fn, stored_attrs=frozenset()) -> List[Cand]:
                             stmts[:] = _drop_empty(stmts)
                         out.append(("sink-all", f))
                     if rest and live and len(rest) <= 2 and not any(isinstance(x, SCOPE) for x in rest):
-                        def f(stmts=stmts, i=i, live=live):
+                        def f(stmts=stmts, i=i, live=live, st=st):
                             tail = stmts[i + 1:]
                             del stmts[i + 1:]
                             for b in live:
@@ -616,7 +616,7 @@ def candidates(fn, stored_attrs=frozenset()) -> List[Cand]:
                 while len(last.orelse) == 1 and isinstance(last.orelse[0], ast.If):
                     last = last.orelse[0]
                 if len(last.orelse) == 1 and isinstance(last.orelse[0], ast.Continue):
-                    def f(last=last):
+                    def f(last=last, st=st):
                         last.orelse = []
                     out.append(("drop-else-continue", f))
                 elif not last.orelse:
@@ -939,7 +939,7 @@ def inline_fresh(fn, known_names: set, stored_attrs) -> bool:
                 nm = st.target.id
             else:
                 continue
-            if nm in known_names or nm in prm or counts[nm] != 1:
+            if nm in known_names or nm in prm or counts[nm] != 1 or nm.startswith('_xk'):
                 continue
             if any(isinstance(x, (ast.Global, ast.Nonlocal)) and nm in x.names for x in ast.walk(fn)):
                 continue
@@ -1377,6 +1377,25 @@ def restore_nested_def_names(fn, ref_nested: List[str]) -> int:
     return k
 
 
+def restore_nested_params(fn, ref_params: List[str]) -> int:
+    """a nested function is only called positionally by its siblings (checked: no keyword call in the parent): its parameters
+    are given back the reference names."""
+    cur = [a.arg for a in fn.args.args]
+    if len(cur) != len(ref_params) or cur == ref_params or fn.args.kwonlyargs or fn.args.vararg or fn.args.kwarg:
+        return 0
+    used = {x.id for x in ast.walk(fn) if isinstance(x, ast.Name)} | set(cur)
+    k = 0
+    for a, new in zip(fn.args.args, ref_params):
+        if a.arg != new and new not in used:
+            old = a.arg
+            a.arg = new
+            for x in ast.walk(fn):
+                if isinstance(x, ast.Name) and x.id == old:
+                    x.id = new
+            k += 1
+    return k
+
+
 # ------------------------------------------------------------------------------------------------ driver
 def _unmatched_stmt_ids(fn, ref_fps):
     """ids of the statements (and of everything inside their headers) whose fingerprint has no partner in the reference."""
@@ -1519,23 +1538,19 @@ def _near(fn, anchor, hot) -> bool:
 def candidates_all(fn, stored_attrs, ref_fps):
     """[(kind, apply, anchor statement or None)]"""
     out = []
+    inside = None
     for kind, f in candidates(fn, stored_attrs):
         anchor = None
-        for cell in (f.__closure__ or ()):
-            try:
-                v = cell.cell_contents
-            except ValueError:
-                continue
-            if isinstance(v, ast.stmt):
+        dfl = f.__defaults__ or ()
+        if inside is None:
+            inside = {id(x) for x in ast.walk(fn)}
+        for v in dfl:
+            if isinstance(v, ast.stmt) and id(v) in inside:
                 anchor = v
                 break
         if anchor is None:
-            for name, v in zip(f.__code__.co_freevars, f.__closure__ or ()):
-                try:
-                    v = v.cell_contents
-                except ValueError:
-                    continue
-                if isinstance(v, ast.AST) and not isinstance(v, ast.stmt):
+            for v in dfl:
+                if isinstance(v, ast.AST) and id(v) in inside:
                     anchor = v
                     break
         out.append((kind, f, anchor))
@@ -1741,6 +1756,11 @@ def candidates2(fn, stored_attrs) -> List[Cand]:
                             st.body.extend(nxt.body)
                         del stmts[i + 1]
                     out.append(("if-merge", f))
+            # `if c: return X` as the last statement of the function (None is returned otherwise)  <->  `return X if c else None`
+            if isinstance(st, ast.If) and not st.orelse and not rest and stmts is top and len(st.body) == 1 and isinstance(st.body[0], ast.Return) and st.body[0].value is not None:
+                def f(stmts=stmts, i=i, st=st):
+                    stmts[i] = L(ast.Return(value=L(ast.IfExp(test=st.test, body=st.body[0].value, orelse=L(ast.Constant(value=None), st)), st)), st)
+                out.append(("tail-if-return", f))
             # drop a bare `return` in tail position of the function
             if isinstance(st, ast.Return) and st.value is None and not rest and _in_tail(fn, stmts) and len(top) > 0:
                 def f(owner=owner, field=field, stmts=stmts, i=i, fn=fn):
